@@ -694,6 +694,27 @@ fn c07_coord(rng: &mut Rng, extent: i32, identity: bool) -> f32 {
 }
 
 fn c07_path(rng: &mut Rng, w: i32, h: i32, identity: bool) -> PathSpec {
+    if rng.chance(1, 25) {
+        // A flat, wide curved sliver whose extreme point (reached with a tangent along the other
+        // axis) lies exactly on a pixel boundary: stepping along the curve can land a quarter
+        // pixel beyond the control polygon there, i.e. just outside the bounds the coverage mask
+        // was sized for (repair F21 and the seeded changes around it depend on this geometry)
+        let wide = rng.range(5, 24) as f32 + if rng.chance(1, 2) { 0.5 } else { 0. };
+        let thin = rng.pick(&[0.25f32, 0.5, 0.75, 1., 1.25]);
+        let ex = rng.range(0, w.max(1) + 3) as f32; // the extreme coordinate: a whole pixel
+        let o = rng.range(-2, h.max(1) + 2) as f32 + rng.pick(&[0.0f32, 0.25, 0.5, 0.75]);
+        let dir = if rng.chance(1, 2) { 1. } else { -1. };
+        // the curve leaves (ex + dir*wide, o), heads for (ex, o + thin/2) and ends on (ex, o + thin)
+        let pts = [(ex + dir * wide, o - thin * 0.5), (ex, o), (ex, o + thin * 0.25)];
+        let swap = rng.chance(1, 3); // the same shape with x and y exchanged
+        let f = |p: (f32, f32)| if swap { (F(p.1), F(p.0)) } else { (F(p.0), F(p.1)) };
+        let (a, b, c) = (f(pts[0]), f(pts[1]), f(pts[2]));
+        let mut segs = vec![Seg::M(a.0, a.1), Seg::Q(b.0, b.1, c.0, c.1)];
+        if rng.chance(2, 3) {
+            segs.push(Seg::Z);
+        }
+        return PathSpec::new(rng.chance(1, 3), segs);
+    }
     let n = rng.usize(8);
     let mut segs = Vec::new();
     let mut last = (c07_coord(rng, w, identity), c07_coord(rng, h, identity));
